@@ -1,5 +1,5 @@
 """C14 -- masking keeps positions; nullifying the mask removes its contribution."""
-from harness import cls_cooc, cls_ngram
+from harness import cls_cooc, cls_ngram, C15_tree
 
 
 def cases(tier):
@@ -8,4 +8,6 @@ def cases(tier):
         grid = [((3,), (2,), 2, "exact", True, "excluded"), ((2, 1), (), 2, "exact", False, "excluded"), ((3,), (), 2, "exact", True, "min_occ")]
     cs = cls_cooc.cases(tier, props=("C14", "C02"), which="mask")
     cs += [c for c in cls_ngram.ngram_cases(tier, ["C14", "C06"], grid) if "prune=None" not in c.name]
+    # labelled trees: removed labels contracted away (no mask), kept in place under the mask, mask nullified
+    cs += [c for c in C15_tree.cases(tier) if "prune=1" in c.name]
     return cs
